@@ -122,6 +122,33 @@ ctx_new(int sbox, const uint8_t *key, int be) {
 }
 
 /* ------------------------------------------------------------------ the non-linear step */
+/* Table form of the same definition, used only by the 2^32 sweep (the plain rg_f costs 3x the library call):
+ * the substitution acts on nibbles independently and the rotation permutes bits, so
+ * f(x) = FLO[x & 0xffff] | FHI[x >> 16] with both tables filled by the nibble loop below.  Inside the sweep every
+ * 64th input is also put through the plain 6-line rg_f; a disagreement between the two references aborts the
+ * run as a harness error (REFBAD), it is never reported as a violation. */
+static uint32_t FLO[65536], FHI[65536];
+static int f_tables_for = -1;
+static void
+f_tables_build(int s) {
+	const uint8_t *sb = SBOXES[s].sbox;
+	uint32_t v, lo, hi;
+	int i;
+	if (f_tables_for == s)
+		return;
+	for (v = 0; v < 65536; v ++) {
+		lo = hi = 0;
+		for (i = 0; i < 4; i ++) {
+			lo |= (uint32_t)(sb[16 * i + ((v >> (4 * i)) & 15)] & 15) << (4 * i);
+			hi |= (uint32_t)(sb[16 * (i + 4) + ((v >> (4 * i)) & 15)] & 15) << (4 * i + 16);
+		}
+		FLO[v] = (lo << 11) | (lo >> 21);
+		FHI[v] = (hi << 11) | (hi >> 21);
+	}
+	f_tables_for = s;
+}
+
+/* mult == 1 selects the sweep form (table reference, cross-checked against rg_f on every 64th input). */
 static void
 block32_range(int s, uint64_t first, uint64_t count, uint32_t mult) {
 	gost28147_context_t *ctx = ctx_new(s, GKEYS[2], 0);
@@ -130,13 +157,31 @@ block32_range(int s, uint64_t first, uint64_t count, uint32_t mult) {
 	uint32_t x, got, want, fx = 0, fg = 0, fw = 0;
 
 	if (NULL == ctx) { vh_fail("init-rc", "gost28147_init refused a 32-byte key"); return; }
-	for (i = 0; i < count; i ++) {
-		x = (uint32_t)(first + i) * mult;
-		got = gost28147_block32(ctx, x);
-		want = rg_f(sb, x);
-		if (got != want) {
-			if (0 == bad) { fx = x; fg = got; fw = want; }
-			bad ++;
+	if (1 == mult) {
+		f_tables_build(s);
+		for (i = 0; i < count; i ++) {
+			x = (uint32_t)(first + i);
+			got = gost28147_block32(ctx, x);
+			want = FLO[x & 0xffff] | FHI[x >> 16];
+			if (0 == (i & 63) && want != rg_f(sb, x)) {
+				printf("NOTE\tREFBAD table form of the GOST reference disagrees with rg_f at 0x%08" PRIx32 "\n", x);
+				fflush(stdout);
+				exit(3);
+			}
+			if (got != want) {
+				if (0 == bad) { fx = x; fg = got; fw = want; }
+				bad ++;
+			}
+		}
+	} else {
+		for (i = 0; i < count; i ++) {
+			x = (uint32_t)(first + i) * mult;
+			got = gost28147_block32(ctx, x);
+			want = rg_f(sb, x);
+			if (got != want) {
+				if (0 == bad) { fx = x; fg = got; fw = want; }
+				bad ++;
+			}
 		}
 	}
 	if (bad) {
